@@ -494,6 +494,8 @@ class SInterp(object):
                     raise Undecided('item store on %s' % render(c))
                 h(self, c, i, v)
             elif isinstance(c, (dict, list)):
+                if isinstance(c, list) and isinstance(i, slice) and isinstance(v, (Obj, It)):
+                    v = self.iterate(v)                 # slice assignment takes the items of any iterable
                 try:
                     c[i] = v
                 except Exception as e:
